@@ -5,6 +5,7 @@ package main
 
 import (
 	"fmt"
+	"math"
 	"os"
 	"strconv"
 	"go/token"
@@ -4582,5 +4583,400 @@ func ruleZ6(c *Ctx) {
 	}
 	if n == 0 {
 		c.anchorFail("no big.Int decoding found in the program decoder")
+	}
+}
+
+// ---------- Q7: isFinite classifies the extreme finite values as finite ----------
+
+func init() {
+	register("Q7", "every finite float is finite: each helper that decides whether a float64 is finite (isFinite in the value package and in lib/json) is evaluated - by interpreting its SSA, not by running it - on one representative of every region its comparisons delimit (0, +-1, +-MaxFloat64, +-Inf, NaN) and must answer true exactly for the non-infinite, non-NaN ones; an off-by-one-ulp bound (< instead of <=) would print the largest finite float as nan", 2, ruleQ7)
+	claim("C15", "Q7")
+	claim("C18", "Q7")
+}
+
+func ruleQ7(c *Ctx) {
+	n := 0
+	reps := []float64{0, math.Copysign(0, -1), 1, -1, math.SmallestNonzeroFloat64, math.MaxFloat64, -math.MaxFloat64, math.Inf(1), math.Inf(-1), math.NaN()}
+	for _, fn := range c.P.Funcs {
+		if !isProdPkg(fnPkgPath(fn)) || fn.Signature.Recv() != nil || fn.Parent() != nil {
+			continue
+		}
+		ps, rs := fn.Signature.Params(), fn.Signature.Results()
+		if ps.Len() != 1 || rs.Len() != 1 {
+			continue
+		}
+		pb, rb := basicOf(ps.At(0).Type()), basicOf(rs.At(0).Type())
+		if pb == nil || rb == nil || pb.Kind() != types.Float64 || rb.Info()&types.IsBoolean == 0 {
+			continue
+		}
+		if !strings.Contains(strings.ToLower(fn.Name()), "finite") {
+			continue
+		}
+		n++
+		key := fnName(fn)
+		bad := ""
+		for _, f := range reps {
+			r, ok := sinterpFunc(fn, svFloat(f))
+			if !ok || r.k != 'b' {
+				bad = fmt.Sprintf("cannot be evaluated for %v (an operation the abstract executor does not model)", f)
+				break
+			}
+			want := !math.IsInf(f, 0) && !math.IsNaN(f)
+			if r.b != want {
+				bad = fmt.Sprintf("answers %v for %v", r.b, f)
+				break
+			}
+		}
+		if bad != "" {
+			c.viol(key, c.P.Pos(fn.Pos()), key+" "+bad+": callers print, hash or encode that float as if it were (non-)finite")
+		} else {
+			c.ok(key, c.P.Pos(fn.Pos()), fmt.Sprintf("correct on all %d representatives (0, -0, +-1, denormal, +-MaxFloat64, +-Inf, NaN)", len(reps)))
+		}
+	}
+	if n < 2 {
+		c.anchorFail("only %d isFinite helper(s) found", n)
+	}
+}
+
+// ---------- A10: AsInt accepts exactly the range of the target type ----------
+
+func init() {
+	register("A10", "sized integer parameters accept exactly their range: the range test in AsInt (the conversion behind UnpackArgs' *int8 ... *uint64 targets) is evaluated - abstractly, on the SSA of the function - for every width 8/16/32/64 at the values just inside and just outside the type's range, and must reject exactly the outside ones (accepting 2^(bits-1) would wrap to a negative number in the target)", 1, ruleA10)
+	claim("C08", "A10")
+	claim("C10", "A10")
+}
+
+func ruleA10(c *Ctx) {
+	fn := c.P.Func("starlark", "AsInt")
+	if fn == nil {
+		c.anchorFail("starlark.AsInt not found")
+		return
+	}
+	// bits = ptrt.Elem().Size() * 8
+	var bitsV ssa.Value
+	eachInstr(fn, func(in ssa.Instruction) {
+		if bo, ok := in.(*ssa.BinOp); ok && bo.Op == token.MUL {
+			if k, ok := constInt(bo.Y); ok && k == 8 {
+				bitsV = bo
+			}
+			if k, ok := constInt(bo.X); ok && k == 8 {
+				bitsV = bo
+			}
+		}
+	})
+	if bitsV == nil {
+		c.anchorFail("AsInt: the width computation (Size() * 8) was not found")
+		return
+	}
+	type arm struct {
+		call   *ssa.Call
+		signed bool
+	}
+	var arms []arm
+	eachInstr(fn, func(in ssa.Instruction) {
+		if call, ok := in.(*ssa.Call); ok && in.Parent() == fn {
+			if cal := call.Call.StaticCallee(); cal != nil && cal.Signature.Recv() != nil && isNamed(cal.Signature.Recv().Type(), "starlark", "Int") {
+				switch cal.Name() {
+				case "Int64":
+					arms = append(arms, arm{call, true})
+				case "Uint64":
+					arms = append(arms, arm{call, false})
+				}
+			}
+		}
+	})
+	if len(arms) < 2 {
+		c.anchorFail("AsInt: expected an Int64 arm and a Uint64 arm, found %d", len(arms))
+		return
+	}
+	run := func(a arm, bits uint64, v sval) (accepted, ok bool) {
+		s := &sinterp{env: map[ssa.Value]sval{}}
+		s.env[bitsV] = svUint(bits)
+		for _, r := range *a.call.Referrers() {
+			if ex, ok := r.(*ssa.Extract); ok {
+				if ex.Index == 0 {
+					s.env[ex] = v
+				} else {
+					s.env[ex] = svBool(true)
+				}
+			}
+		}
+		blk := a.call.Block()
+		start := 0
+		for i, in := range blk.Instrs {
+			if in == ssa.Instruction(a.call) {
+				start = i + 1
+			}
+		}
+		for steps := 0; steps < 100; steps++ {
+			if steps > 0 {
+				for _, in := range blk.Instrs {
+					if ta, ok := in.(*ssa.TypeAssert); ok && len(fn.Params) > 1 && ta.X == ssa.Value(fn.Params[1]) {
+						return true, true // reached the inner switch that assigns to the target
+					}
+				}
+			}
+			next, ret, ok := s.step(blk, start)
+			if !ok {
+				return false, false
+			}
+			if ret != nil {
+				last := ret.Results[len(ret.Results)-1]
+				return isNilConst(last), true
+			}
+			blk, start = next, 0
+		}
+		return false, false
+	}
+	for _, a := range arms {
+		for _, bits := range []uint64{8, 16, 32, 64} {
+			kind := "unsigned"
+			if a.signed {
+				kind = "signed"
+			}
+			key := fmt.Sprintf("starlark.AsInt: %s %d-bit range", kind, bits)
+			type tc struct {
+				v    sval
+				want bool
+				desc string
+			}
+			var tcs []tc
+			if a.signed {
+				if bits < 64 {
+					lo, hi := -(int64(1) << (bits - 1)), int64(1)<<(bits-1)-1
+					tcs = []tc{{svInt(lo - 1), false, "min-1"}, {svInt(lo), true, "min"}, {svInt(-1), true, "-1"}, {svInt(0), true, "0"}, {svInt(hi), true, "max"}, {svInt(hi + 1), false, "max+1"}}
+				} else {
+					tcs = []tc{{svInt(math.MinInt64), true, "min"}, {svInt(math.MaxInt64), true, "max"}, {svInt(0), true, "0"}}
+				}
+			} else {
+				if bits < 64 {
+					hi := uint64(1)<<bits - 1
+					tcs = []tc{{svUint(0), true, "0"}, {svUint(hi), true, "max"}, {svUint(hi + 1), false, "max+1"}}
+				} else {
+					tcs = []tc{{svUint(0), true, "0"}, {svUint(math.MaxUint64), true, "max"}}
+				}
+			}
+			bad := ""
+			for _, t := range tcs {
+				acc, ok := run(a, bits, t.v)
+				if !ok {
+					bad = "the range test cannot be evaluated for " + t.desc + " (an operation the abstract executor does not model)"
+					break
+				}
+				if acc != t.want {
+					verb := "rejects"
+					if acc {
+						verb = "accepts"
+					}
+					bad = fmt.Sprintf("AsInt %s %s of the %s %d-bit range", verb, t.desc, kind, bits)
+					break
+				}
+			}
+			if bad != "" {
+				c.viol(key, c.P.Pos(a.call.Pos()), bad+": a built-in with a sized integer parameter receives a wrapped value or refuses a legal one")
+			} else {
+				c.ok(key, c.P.Pos(a.call.Pos()), fmt.Sprintf("accepts exactly the range (%d boundary values evaluated)", len(tcs)))
+			}
+		}
+	}
+}
+
+// ---------- Q8: \u and \U escapes denote exactly the Unicode scalar values ----------
+
+func init() {
+	register("Q8", "code-point escapes are validated exactly: the checks that follow the parsing of a \\uXXXX / \\UXXXXXXXX escape in unquote are evaluated (abstractly, on the function's SSA) at the boundaries of the Unicode scalar-value ranges - 0xD7FF, 0xD800, 0xDFFF, 0xE000, 0x10FFFF, 0x110000 - and must reject exactly the surrogates and the values above U+10FFFF; Quote never produces such escapes, so reading back what was printed depends on the accepted set being exact", 1, ruleQ8)
+	claim("C15", "Q8")
+	claim("C14", "Q8")
+}
+
+func ruleQ8(c *Ctx) {
+	fn := c.P.Func("syntax", "unquote")
+	if fn == nil {
+		c.anchorFail("syntax.unquote not found")
+		return
+	}
+	// the \u arm: a strconv.ParseUint call whose result is compared with unicode.MaxRune
+	var call *ssa.Call
+	eachInstr(fn, func(in ssa.Instruction) {
+		cl, ok := in.(*ssa.Call)
+		if !ok || in.Parent() != fn {
+			return
+		}
+		if cal := cl.Call.StaticCallee(); cal == nil || cal.String() != "strconv.ParseUint" {
+			return
+		}
+		for _, r := range *cl.Referrers() {
+			ex, ok := r.(*ssa.Extract)
+			if !ok || ex.Index != 0 || ex.Referrers() == nil {
+				continue
+			}
+			for _, u := range *ex.Referrers() {
+				if bo, ok := u.(*ssa.BinOp); ok {
+					if k, ok := constInt(bo.Y); ok && k == 0x10FFFF {
+						call = cl
+					}
+					if k, ok := constInt(bo.X); ok && k == 0x10FFFF {
+						call = cl
+					}
+				}
+			}
+		}
+	})
+	key := "syntax.unquote: \\u escape range"
+	if call == nil {
+		c.viol(key, c.P.Pos(fn.Pos()), "no check of the parsed code point against unicode.MaxRune found after strconv.ParseUint: escapes above U+10FFFF are not rejected")
+		return
+	}
+	run := func(n uint64) (accepted, ok bool) {
+		s := &sinterp{env: map[ssa.Value]sval{}}
+		for _, r := range *call.Referrers() {
+			if ex, ok := r.(*ssa.Extract); ok {
+				if ex.Index == 0 {
+					s.env[ex] = svUint(n)
+				} else {
+					s.env[ex] = sval{k: 'n'} // err == nil
+				}
+			}
+		}
+		blk := call.Block()
+		start := 0
+		for i, in := range blk.Instrs {
+			if in == ssa.Instruction(call) {
+				start = i + 1
+			}
+		}
+		for steps := 0; steps < 60; steps++ {
+			for _, in := range blk.Instrs[start:] {
+				if cl, ok := in.(*ssa.Call); ok {
+					if cal := cl.Call.StaticCallee(); cal != nil {
+						if cal.String() == "fmt.Errorf" {
+							return false, true
+						}
+						if cal.Signature.Recv() != nil && strings.HasPrefix(cal.Name(), "Write") {
+							return true, true
+						}
+					}
+				}
+			}
+			next, ret, ok := s.step(blk, start)
+			if !ok {
+				return false, false
+			}
+			if ret != nil {
+				return false, false
+			}
+			blk, start = next, 0
+		}
+		return false, false
+	}
+	reps := []uint64{0, 0x41, 0x7f, 0x80, 0xff, 0xd7ff, 0xd800, 0xdbff, 0xdc00, 0xdfff, 0xe000, 0xffff, 0x10000, 0x10ffff, 0x110000, 0xffffffff}
+	bad := ""
+	for _, n := range reps {
+		acc, ok := run(n)
+		if !ok {
+			bad = fmt.Sprintf("the checks cannot be evaluated for U+%04X (an operation the abstract executor does not model)", n)
+			break
+		}
+		want := n <= 0x10ffff && !(n >= 0xd800 && n <= 0xdfff)
+		if acc != want {
+			verb := "rejects"
+			if acc {
+				verb = "accepts"
+			}
+			bad = fmt.Sprintf("unquote %s the escape for U+%04X", verb, n)
+			break
+		}
+	}
+	if bad != "" {
+		c.viol(key, c.P.Pos(call.Pos()), bad+": the set of code-point escapes accepted is not exactly the Unicode scalar values")
+	} else {
+		c.ok(key, c.P.Pos(call.Pos()), fmt.Sprintf("accepts exactly the scalar values (%d boundary code points evaluated)", len(reps)))
+	}
+}
+
+// ---------- I10: the representation switch-over points are exactly the int32 limits ----------
+
+func init() {
+	register("I10", "small means int32: MakeInt64 and MakeUint64 are evaluated (abstractly, on their SSA) at the values just inside and just outside the int32 range and must choose the unchecked small constructor exactly for the values that fit; a bound that is off by one stores 2^31 in the small form, which the packed representation misreads", 2, ruleI10)
+	claim("C10", "I10")
+}
+
+func ruleI10(c *Ctx) {
+	n := 0
+	for _, name := range []string{"MakeInt64", "MakeUint64"} {
+		fn := c.P.Func("starlark", name)
+		if fn == nil {
+			c.anchorFail("starlark.%s not found", name)
+			continue
+		}
+		n++
+		key := "starlark." + name + ": small/big switch-over"
+		run := func(v sval) (small, ok bool) {
+			s := &sinterp{env: map[ssa.Value]sval{fn.Params[0]: v}}
+			blk := fn.Blocks[0]
+			for steps := 0; steps < 50; steps++ {
+				for _, in := range blk.Instrs {
+					if cl, ok := in.(*ssa.Call); ok {
+						if cal := cl.Call.StaticCallee(); cal != nil {
+							switch cal.Name() {
+							case "makeSmallInt":
+								return true, true
+							case "makeBigInt":
+								return false, true
+							}
+						}
+					}
+				}
+				next, ret, ok := s.step(blk, 0)
+				if !ok || ret != nil {
+					return false, false
+				}
+				blk = next
+			}
+			return false, false
+		}
+		var reps []sval
+		if name == "MakeInt64" {
+			for _, x := range []int64{math.MinInt64, math.MinInt32 - 1, math.MinInt32, -1, 0, 1, math.MaxInt32, math.MaxInt32 + 1, math.MaxInt64} {
+				reps = append(reps, svInt(x))
+			}
+		} else {
+			for _, x := range []uint64{0, 1, math.MaxInt32, math.MaxInt32 + 1, math.MaxUint32, math.MaxInt64, math.MaxUint64} {
+				reps = append(reps, svUint(x))
+			}
+		}
+		bad := ""
+		for _, v := range reps {
+			small, ok := run(v)
+			var want bool
+			var show string
+			if v.k == 'i' {
+				want = v.i >= math.MinInt32 && v.i <= math.MaxInt32
+				show = fmt.Sprint(v.i)
+			} else {
+				want = v.u <= math.MaxInt32
+				show = fmt.Sprint(v.u)
+			}
+			if !ok {
+				bad = "cannot be evaluated for " + show
+				break
+			}
+			if small != want {
+				which := "big"
+				if small {
+					which = "small"
+				}
+				bad = fmt.Sprintf("chooses the %s representation for %s", which, show)
+				break
+			}
+		}
+		if bad != "" {
+			c.viol(key, c.P.Pos(fn.Pos()), "starlark."+name+" "+bad+": the canonical-representation invariant (small iff the value fits in int32) is broken at the boundary")
+		} else {
+			c.ok(key, c.P.Pos(fn.Pos()), fmt.Sprintf("small exactly for the int32 range (%d boundary values evaluated)", len(reps)))
+		}
+	}
+	if n == 0 {
+		c.anchorFail("MakeInt64/MakeUint64 not found")
 	}
 }
